@@ -9,6 +9,7 @@ import (
 
 	"github.com/bytom/bytom/protocol/bc"
 	"github.com/bytom/bytom/protocol/bc/types"
+	"github.com/bytom/bytom/protocol/casper"
 	"github.com/bytom/bytom/protocol/state"
 
 	"verif/internal/chainkit"
@@ -22,6 +23,7 @@ type justCheck struct {
 	tr       *chainkit.Tree
 	prev     map[bc.Hash]state.CheckpointStatus
 	justFrom map[bc.Hash]bc.Hash // target -> source of the supermajority link that justified it
+	node     func() *chainkit.Node
 }
 
 func statusOf(ob *obs, h bc.Hash) (state.CheckpointStatus, bool) {
@@ -51,14 +53,30 @@ func (j *justCheck) check(c *ev.Case, ob *obs, ctx map[string]interface{}) bool 
 		if !ok || st < state.Justified || j.prev[cp.Hash] >= state.Justified {
 			continue
 		}
-		node := ob.tree[cp.Hash]
-		if node == nil {
-			continue // below the engine's root already (justified and finalized in one step is handled through the tree before it moves)
+		var links []casper.VerifLink
+		if node := ob.tree[cp.Hash]; node != nil {
+			links = node.Links
+		} else if j.node != nil {
+			// already below the engine's root (a cascade justified and finalized several checkpoints in
+			// one step): the verifications are the ones persisted in the checkpoint's block header
+			h := cp.Hash
+			if hdr, err := j.node().Chain.GetHeaderByHash(&h); err == nil {
+				for _, sl := range hdr.SupLinks {
+					vl := casper.VerifLink{SourceHash: sl.SourceHash, SourceHeight: sl.SourceHeight}
+					for i, sig := range sl.Signatures {
+						if len(sig) != 0 {
+							vl.Signed = append(vl.Signed, i)
+							vl.Signatures = append(vl.Signatures, sig)
+						}
+					}
+					links = append(links, vl)
+				}
+			}
 		}
 		n := len(j.tr.ValidatorsOf(cp))
 		okLink := false
 		var detail []string
-		for _, l := range node.Links {
+		for _, l := range links {
 			valid, invalid := validSigners(j.net, j.tr, cp, l)
 			distinct := map[int]bool{}
 			for _, k := range valid {
@@ -247,6 +265,7 @@ func TestC17(t *testing.T) {
 			}
 		}
 		jc := &justCheck{net: net, tr: tr}
+		jc.node = func() *chainkit.Node { return rn.nd }
 		expect := func(ob *obs, phase string) bool {
 			st4, _ := statusOf(ob, cp4.Hash)
 			st8, _ := statusOf(ob, cp8.Hash)
@@ -322,7 +341,7 @@ func TestC17(t *testing.T) {
 		}
 		ob := rn.observe()
 		ctx := map[string]interface{}{"n": n, "phase": "after-restart+1", "in_header": inHeader, "trail": rn.trail}
-		jc2 := &justCheck{net: net, tr: tr, prev: jc.prev, justFrom: jc.justFrom}
+		jc2 := &justCheck{net: net, tr: tr, prev: jc.prev, justFrom: jc.justFrom, node: jc.node}
 		if !jc2.check(c, ob, ctx) {
 			return
 		}
@@ -352,6 +371,7 @@ func TestC17(t *testing.T) {
 		}
 		defer func() { rn.nd.Destroy() }()
 		jc := &justCheck{net: net, tr: tr}
+		jc.node = func() *chainkit.Node { return rn.nd }
 		var last *obs
 		rn.run(steps, runOpt{reopenPct: 5, headerVotes: true}, func(si int, s chainkit.Step, err error, ob *obs, restarted bool) bool {
 			ctx := map[string]interface{}{"step": si, "event": s.String(), "after_restart": restarted, "shape": tr.Shape(), "trail": rn.trail}
